@@ -1,3 +1,3 @@
 import PocketModel.Store.DiskDriver
-/-! Driver for C04 (see `PocketModel/Store/DiskDriver.lean`). -/
+/-! Driver for C08 (see `PocketModel/Store/DiskDriver.lean`). -/
 def main : IO Unit := Proto.run ({} : DiskDriver.St) DiskDriver.step
